@@ -349,6 +349,14 @@ def work_trees(unit):
     return {"stats": dict(stats), "findings": cap_findings(findings), "n": n, "samples": samples, "wall": time.time() - t0}
 
 
+def work_backends(unit):
+    """The meaning of a sentence on the real back ends (llvmlite JIT and tensora's own cffi compile) with doubles on
+    which a fused multiply-add or a re-association is visible: see vx/realbe.py."""
+    from ..realbe import work
+
+    return work(unit)
+
+
 def pipeline_cases(max_leaves):
     """(target indexes, tree) for the far-end meaning sweep: every shape and operator assignment; leaves are
     distinct tensors with indexes from {(), (i), (j)} (every combination up to 3 leaves, {(), (i)} at 4 leaves, the
@@ -377,11 +385,8 @@ def pipeline_cases(max_leaves):
     return out
 
 
-def work_pipeline(unit):
-    """The conventional meaning of the text, observed at the far end of the compiler: with every dimension equal
-    to 1 a contraction sums one term, so the generated evaluate kernel (parse -> desugar -> iteration graph -> IR,
-    run on the abstract machine over polynomials) must compute exactly what Python's arithmetic computes from the
-    same tokens."""
+def pipeline_one(target, tree, stats):
+    """One assignment of the far-end sweep.  Returns (finding or None, compared?, text, value)."""
     from returns.result import Success
 
     from tensora.expression import parse_assignment
@@ -392,64 +397,75 @@ def work_pipeline(unit):
     from ..am import Fault, Machine
     from ..tensors import am_decode
 
+    primes = [Fraction(p) for p in (2, 3, 5, 7, 11, 13, 17, 19, 23)]
+    DIM = {"i": 1, "j": 1}
+    toks = tokens(tree)
+    text = f"T({','.join(target)}) = " + " ".join(toks)
+    r = parse_assignment(text)
+    if not isinstance(r, Success):
+        stats["pipeline: assignment rejected (validity rules)"] += 1
+        return None, False, text, None
+    asg = r.unwrap()
+    prog = ("T", tuple(target), tree)
+    if not any(l[0] == "t" for l in space.tree_leaves(tree)):
+        return None, False, text, None
+    orders = space.tensor_orders(prog)
+    fmts = {nm: Format((Mode.dense,) * o, tuple(range(o))) for nm, o in orders.items()}
+    status, module = kx.generate(Problem(asg, fmts), kx.KINDS3)
+    if status != "ok":
+        stats[f"pipeline: generation {status} ({type(module).__name__})"] += 1
+        return None, False, text, None
+    kc = kx.KernelCase(prog, list(orders), fmts, module)
+    joint = space.full_joint_structure(prog, fmts, DIM)
+    vals, _env = kx.make_env(joint)
+    m = Machine(generic=True, budget=20000)
+    case = {"text": text, "tree": tree, "target": list(target), "stage": "evaluate kernel, all dimensions 1"}
+    try:
+        args, ts_out, odims = kc.build_args(m, kc.fns["evaluate"], DIM, joint, vals)
+        m.call(kc.fns["evaluate"], args)
+        stored, problems, _image = am_decode(ts_out, kc.ofmt, odims)
+    except Fault as f:
+        stats[f"pipeline: kernel fault {f.kind} (C05's business)"] += 1
+        return None, False, text, None
+    if problems or len(stored) != 1:
+        stats["pipeline: malformed output (C02's business)"] += 1
+        return None, False, text, None
+    point = {}
+    pyenv = {}
+    k = 0
+    for l in space.tree_leaves(tree):
+        if l[0] == "t":
+            point[kx.var_name(l[1], (0,) * len(l[2]))] = primes[k]
+            pyenv[(l[1], tuple(l[2]))] = primes[k]
+            k += 1
+    got = next(iter(stored.values()))
+    got = got.subst(point) if hasattr(got, "subst") else Fraction(got)
+    want = python_value(toks, pyenv)
+    if got != want:
+        return _f("pipeline-meaning", f"{text!r} with every dimension 1 computes {got}, arithmetic says {want}", case), \
+            True, text, got
+    return None, True, text, got
+
+
+def work_pipeline(unit):
+    """The conventional meaning of the text, observed at the far end of the compiler: with every dimension equal
+    to 1 a contraction sums one term, so the generated evaluate kernel (parse -> desugar -> iteration graph -> IR,
+    run on the abstract machine over polynomials) must compute exactly what Python's arithmetic computes from the
+    same tokens."""
     t0 = time.time()
     stats = Counter()
     findings = []
     samples = []
     n = 0
-    primes = [Fraction(p) for p in (2, 3, 5, 7, 11, 13, 17, 19, 23)]
     cases = pipeline_cases(unit["max_leaves"])[unit["part"] :: unit["parts"]]
-    DIM = {"i": 1, "j": 1}
     for target, tree in cases:
-        toks = tokens(tree)
-        text = f"T({','.join(target)}) = " + " ".join(toks)
-        r = parse_assignment(text)
-        if not isinstance(r, Success):
-            stats["pipeline: assignment rejected (validity rules)"] += 1
-            continue
-        asg = r.unwrap()
-        prog = ("T", tuple(target), tree)
-        if not any(l[0] == "t" for l in space.tree_leaves(tree)):
-            continue
-        orders = space.tensor_orders(prog)
-        fmts = {nm: Format((Mode.dense,) * o, tuple(range(o))) for nm, o in orders.items()}
         n += 1
-        status, module = kx.generate(Problem(asg, fmts), kx.KINDS3)
-        if status != "ok":
-            stats[f"pipeline: generation {status} ({type(module).__name__})"] += 1
-            continue
-        kc = kx.KernelCase(prog, list(orders), fmts, module)
-        joint = space.full_joint_structure(prog, fmts, DIM)
-        vals, env = kx.make_env(joint)
-        m = Machine(generic=True, budget=20000)
-        case = {"text": text, "tree": tree, "target": list(target), "stage": "evaluate kernel, all dimensions 1"}
-        try:
-            args, ts_out, odims = kc.build_args(m, kc.fns["evaluate"], DIM, joint, vals)
-            m.call(kc.fns["evaluate"], args)
-            stored, problems, _image = am_decode(ts_out, kc.ofmt, odims)
-        except Fault as f:
-            stats[f"pipeline: kernel fault {f.kind} (C05's business)"] += 1
-            continue
-        if problems or len(stored) != 1:
-            stats["pipeline: malformed output (C02's business)"] += 1
-            continue
-        point = {}
-        pyenv = {}
-        k = 0
-        for l in space.tree_leaves(tree):
-            if l[0] == "t":
-                point[kx.var_name(l[1], (0,) * len(l[2]))] = primes[k]
-                pyenv[(l[1], tuple(l[2]))] = primes[k]
-                k += 1
-        got = next(iter(stored.values()))
-        got = got.subst(point) if hasattr(got, "subst") else Fraction(got)
-        want = python_value(toks, pyenv)
-        if got != want:
-            findings.append(_f("pipeline-meaning", f"{text!r} with every dimension 1 computes {got}, arithmetic says "
-                               f"{want}", case))
-        else:
+        f, compared, text, got = pipeline_one(target, tree, stats)
+        if f is not None:
+            findings.append(f)
+        elif compared:
             stats["pipeline meanings compared"] += 1
-            if len(samples) < 1 and len(toks) > 7:
+            if len(samples) < 1 and len(text) > 40:
                 samples.append({"sentence": text, "kernel value": str(got), "dimensions": "all 1"})
         if too_many(findings):
             break
@@ -646,6 +662,8 @@ def run(tier, seed):
                                      "redundant": True, "blanks": ["", " ", "  "]}))
     for k in range(32):
         units.append(("work_pipeline", {"part": k, "parts": 32, "max_leaves": 5 if tier == "quick" else 6}))
+    for k in (0, 2, 4, 6):
+        units.append(("work_backends", {"k": k, "prop": "C12"}))
     units.append(("work_misc", {"max_format_order": 4 if tier == "quick" else 5}))
     for k in range(16):
         units.append(("work_validity", {"part": k, "parts": 16}))
@@ -699,7 +717,15 @@ def replay(path):
     case = rec["case"]
     findings = []
     stats = Counter()
-    if "text" in case and not case.get("named") and rec["signature"].get("parser") != "format":
+    def to_tuple(t):
+        return tuple(to_tuple(x) for x in t) if isinstance(t, list) else t
+
+    if case.get("realbe"):
+        findings = work_backends({"k": case["menu_index"], "prop": "C12"})["findings"]
+    elif "stage" in case:
+        f, *_ = pipeline_one(tuple(case["target"]), to_tuple(case["tree"]), stats)
+        findings = [f] if f is not None else []
+    elif "text" in case and not case.get("named") and rec["signature"].get("parser") != "format":
         for _ in range(2):
             check_assignment_string(case["text"], findings, stats)
     elif "text" in case:
